@@ -434,5 +434,5 @@ var c12Faults = hx.Register(&hx.Check[c12Case]{
 func TestC12(t *testing.T) {
 	s := hx.Begin(t, "C12")
 	defer s.End()
-	hx.Run(s, c12Faults, s.N(300, 3000))
+	hx.Run(s, c12Faults, s.N(1500, 12000))
 }
